@@ -9,20 +9,27 @@ swallowed; `writeInitParams` 797-821).
         if data != self.persistentData:
             ... tmpfile = <target> + '.tmp' ...
             try:
-                with open(tmpfile, 'w', encoding='utf-8') as f:               # op 0            open
-                    json.dump(data, f, indent=2)                              # ops 1..n-1      f.write(chunk) each
-                    f.write('\n')                                             # op n            f.write
-                                                                              # op n+1          f.close  (__exit__)
+                with open(tmpfile, 'w', encoding='utf-8') as f:               # op 0            open (create / truncate)
+                    json.dump(data, f, indent=2)                              #   f.write(chunk) each: into the buffers of the
+                    f.write('\n')                                             #   text file; ops 1..n = what the buffered writer
+                                                                              #   hands to the descriptor, whenever it does
+                                                                              #   (at the latest when `__exit__` flushes)
+                                                                              # op n+1          close of the descriptor (__exit__)
                 os.rename(tmpfile, self.persistentFile)                       # op n+2          rename
                 self.persistentData = data                                    # believed := data, only now
             finally:
                 try: os.remove(tmpfile)                                       # op n+3          remove
                 except FileNotFoundError: pass
 
-The file system is a partial map `Path ⇀ Bytes`.  Durability is modelled at the granularity of these
-Python-level operations: every `write` is taken to reach the file immediately (the worst case for a
-crash), `rename` is atomic, nothing is reordered (the code issues no fsync; power-loss reordering of
-data and metadata is outside this model).
+The file system is a partial map `Path ⇀ Bytes`.  Durability is modelled at the granularity of the operations that
+reach the operating system: `open`, every `write` on the file descriptor, its `close`, `rename`, `remove`.  `f` is
+Python's buffered text file: the text of the snapshot reaches the descriptor in chunks chosen by the buffer layers
+(for a small file: one write, issued by `__exit__`), so `chunks` below is *any* list whose concatenation is the text -
+the theorems quantify over it, the driver receives the chunking recorded from Python's `io` for the buffer sizes in
+use.  What matters for the order of operations is only that all writes precede the `close`, and the `close` precedes
+the `rename` (the `with` block ends before `os.rename`).  After a failing write the file object is closed on the way
+out and may write again (`Fault.after`).  `rename` is atomic, nothing is reordered (the code issues no fsync; page-cache
+write-back and power-loss reordering of data and metadata are outside this model).
 -/
 namespace Frappy.Persist
 
